@@ -756,9 +756,9 @@ func (gs *GossipSubRouter) OnClosedIncomingStream(pid peer.ID, proto protocol.ID
 	if gs.gate != nil {
 		gs.gate.OnClosedIncomingStream(pid, proto)
 	}
-	if gs.feature(GossipSubFeatureExtensions, proto) {
-		gs.extensions.OnClosedIncomingStream(pid, proto)
-	}
+	// The extensions handshake state is recorded for every peer that sends us an RPC
+	// (extensionsState.HandleRPC), whatever protocol it speaks, so it is dropped for every peer.
+	gs.extensions.OnClosedIncomingStream(pid, proto)
 }
 
 func (gs *GossipSubRouter) OnNewOutboundStream(p peer.ID, proto protocol.ID, helloPacket *RPC) *RPC {
